@@ -50,7 +50,7 @@ fn scan_case(big: bool) -> impl Strategy<Value = ScanCase> {
         ]
         .boxed()
     };
-    (n, limit, any::<bool>(), proptest::option::weighted(0.2, 1u32..50), proptest::option::weighted(0.35, prop_oneof![8 => "[a-zé日 ]{0,40}", 1 => "[a-z]{300,420}", 1 => "[a-z]{420,600}"]), any::<bool>())
+    (n, limit, any::<bool>(), proptest::option::weighted(0.2, 1u32..50), proptest::option::weighted(0.35, prop_oneof![7 => "[a-zé日 ]{0,40}", 2 => "[a-z]{230,312}", 1 => "[a-z]{312,420}", 1 => "[a-z]{420,600}"]), any::<bool>())
         .prop_map(|(n, limit, descending, later_limit, pad, keepalive)| ScanCase { n, limit, descending, later_limit, pad, keepalive })
 }
 
@@ -114,9 +114,9 @@ fn check_scan(addr: std::net::SocketAddr, rt: &tokio::runtime::Runtime, c: &Scan
             if resp.header("connection").map(|c| c.eq_ignore_ascii_case("close")).unwrap_or(false) {
                 conn = None;
             }
-            if resp.status >= 400 && c.pad.as_ref().map(|p| p.len() >= 300).unwrap_or(false) {
+            if resp.status >= 500 && c.pad.as_ref().map(|p| p.len() >= 290).unwrap_or(false) {
                 // the filler makes the page token longer than the framework's maximum: the framework refuses to
-                // issue it and fails the request.  The scan cannot be completed; that is not judged.  What is
+                // issue it and the handler fails (a 5xx; a 4xx for a token the framework did issue is not this).  The scan cannot be completed; that is not judged.  What is
                 // judged (below) is that it never answers 200 with a non-empty page and no token instead.
                 return Err(Failure::new("ABORTED-TOKEN-TOO-LARGE", String::new()));
             }
@@ -189,7 +189,7 @@ fn check_scan(addr: std::net::SocketAddr, rt: &tokio::runtime::Runtime, c: &Scan
 }
 
 pub fn run(ctx: &mut Ctx) {
-    ctx.rule = "full scans of the collection 0..n through a live keyset-paginated endpoint built from PaginationParams / page_limit / ResultsPage::new: n in 0..300 densely plus 300..1200 and {9999,10000,10001,25000}; client limit absent, 1..40, n-2..n+2, {1,2,99,100,101,9999,10000,10001,25000,u32::MAX}; ascending/descending; optionally a different limit on later pages; token filler of varying size, 7% of it large enough to push the token over the framework's maximum (such scans may be aborted by the server with an error status, but must never be cut short by a non-empty page without a token). Oracle: concatenation of pages == collection in order, each page <= effective limit, token present iff page non-empty, at most ceil(n/l)+1 requests. non-trivial = n > limit, or n mod l in {0,1,l-1}, or limit above the server maximum; distinct by case".into();
+    ctx.rule = "full scans of the collection 0..n through a live keyset-paginated endpoint built from PaginationParams / page_limit / ResultsPage::new: n in 0..300 densely plus 300..1200 and {9999,10000,10001,25000}; client limit absent, 1..40, n-2..n+2, {1,2,99,100,101,9999,10000,10001,25000,u32::MAX}; ascending/descending; optionally a different limit on later pages; token filler of varying size, fillers of 230-312 characters give tokens just below the framework's maximum of 512 and 7% are large enough to push the token over the framework's maximum (such scans may be aborted by the server with an error status, but must never be cut short by a non-empty page without a token). Oracle: concatenation of pages == collection in order, each page <= effective limit, token present iff page non-empty, at most ceil(n/l)+1 requests. non-trivial = n > limit, or n mod l in {0,1,l-1}, or limit above the server maximum; distinct by case".into();
     ctx.max_shrink_iters = 300;
     let srt = tokio::runtime::Builder::new_multi_thread().worker_threads(2).enable_all().build().unwrap();
     let rt = tokio::runtime::Builder::new_current_thread().enable_all().build().unwrap();
